@@ -16,22 +16,118 @@
 //	net.Dialer                              -> simrt.Dialer
 //	&http.Transport{...}                    -> simrt.WrapTransport(&http.Transport{...})
 //	&http.Client{...}                       -> simrt.WrapClient(&http.Client{...})
+//	for k, v := range <map> {               -> for _, k := range simrt.SortedKeys(<map>) { v, ok := <map>[k]; if !ok { continue }; ...
+//	   (map iteration order is the one source of randomness inside Helios itself; maps are found with go/types)
 //
 // Exit status: 0 ok, 2 on any trouble (parse error, expected seam not found).
 package main
 
 import (
+	"crypto/sha256"
+	"encoding/hex"
 	"encoding/json"
 	"flag"
 	"fmt"
 	"go/ast"
+	"go/importer"
 	"go/parser"
 	"go/token"
+	"go/types"
 	"os"
 	"path/filepath"
 	"sort"
 	"strings"
 )
+
+// mapRanges: "rel:offset-of-for-keyword" of every range statement over a map.
+var mapRanges = map[string]bool{}
+
+// findMapRanges type-checks every package (non-test files) with the source importer and
+// records the range statements whose operand is a map. The result is cached by content hash
+// (type-checking net/http from source costs a few seconds).
+func findMapRanges(absRepo string, files []string, cacheDir string) []string {
+	h := sha256.New()
+	h.Write([]byte("vinstr-maprange-v1\n"))
+	for _, rel := range files {
+		data, _ := os.ReadFile(filepath.Join(absRepo, rel))
+		h.Write([]byte(rel + "\n"))
+		h.Write(data)
+	}
+	key := hex.EncodeToString(h.Sum(nil))[:24]
+	cacheFile := filepath.Join(cacheDir, "maprange-"+key+".json")
+	if cacheDir != "" {
+		if data, err := os.ReadFile(cacheFile); err == nil {
+			var c struct {
+				Ranges   []string
+				Warnings []string
+			}
+			if json.Unmarshal(data, &c) == nil {
+				for _, r := range c.Ranges {
+					mapRanges[r] = true
+				}
+				return c.Warnings
+			}
+		}
+	}
+	var warnings []string
+	byDir := map[string][]string{}
+	for _, rel := range files {
+		byDir[filepath.Dir(rel)] = append(byDir[filepath.Dir(rel)], rel)
+	}
+	var dirs []string
+	for d := range byDir {
+		dirs = append(dirs, d)
+	}
+	sort.Strings(dirs)
+	fset := token.NewFileSet()
+	// the source importer resolves import paths relative to the working directory
+	wd, _ := os.Getwd()
+	os.Chdir(absRepo)
+	defer os.Chdir(wd)
+	imp := importer.ForCompiler(fset, "source", nil)
+	for _, d := range dirs {
+		var afs []*ast.File
+		for _, rel := range byDir[d] {
+			f, err := parser.ParseFile(fset, filepath.Join(absRepo, rel), nil, 0)
+			if err != nil {
+				fail("%s: %v", rel, err)
+			}
+			afs = append(afs, f)
+		}
+		info := &types.Info{Types: map[ast.Expr]types.TypeAndValue{}}
+		nerr := 0
+		conf := types.Config{Importer: imp, Error: func(err error) { nerr++ }}
+		conf.Check(d, fset, afs, info)
+		if nerr > 0 {
+			warnings = append(warnings, fmt.Sprintf("%s: %d type errors while looking for map iterations; map ranges there may be missed", d, nerr))
+		}
+		for _, f := range afs {
+			ast.Inspect(f, func(n ast.Node) bool {
+				if r, ok := n.(*ast.RangeStmt); ok {
+					if tv, ok := info.Types[r.X]; ok && tv.Type != nil {
+						if _, isMap := tv.Type.Underlying().(*types.Map); isMap {
+							pos := fset.Position(r.Pos())
+							rel, _ := filepath.Rel(absRepo, pos.Filename)
+							mapRanges[fmt.Sprintf("%s:%d", rel, pos.Offset)] = true
+						}
+					}
+				}
+				return true
+			})
+		}
+	}
+	if cacheDir != "" {
+		var rs []string
+		for r := range mapRanges {
+			rs = append(rs, r)
+		}
+		sort.Strings(rs)
+		data, _ := json.Marshal(map[string]any{"Ranges": rs, "Warnings": warnings})
+		os.MkdirAll(cacheDir, 0o755)
+		os.WriteFile(cacheFile, data, 0o644)
+	}
+	return warnings
+}
 
 // Files whose locks are deliberately NOT instrumented (leaf lock taken on
 // every log call; no property anchors there).
@@ -80,6 +176,7 @@ func main() {
 	out := flag.String("out", "", "output directory")
 	sim := flag.String("sim", "/verif/sim", "simulator source root")
 	quiet := flag.Bool("q", false, "quiet")
+	cache := flag.String("cache", "", "directory for the map-range cache (optional)")
 	flag.Parse()
 	if *out == "" {
 		fail("-out required")
@@ -116,6 +213,7 @@ func main() {
 		}
 	}
 	sort.Strings(files)
+	warnings = append(warnings, findMapRanges(absRepo, files, *cache)...)
 
 	for _, rel := range files {
 		src, err := os.ReadFile(filepath.Join(absRepo, rel))
@@ -265,6 +363,7 @@ func instrument(rel string, src []byte) (*fileResult, error) {
 	}
 
 	goCounter := 0
+	rangeCounter := 0
 	ast.Inspect(f, func(n ast.Node) bool {
 		switch x := n.(type) {
 		case *ast.SelectorExpr:
@@ -296,6 +395,35 @@ func instrument(rel string, src []byte) (*fileResult, error) {
 					edit{start: off(x.End()), end: off(x.End()), text: ")", prio: -5})
 				res.counts["client"]++
 			}
+		case *ast.RangeStmt:
+			if !mapRanges[fmt.Sprintf("%s:%d", rel, off(x.Pos()))] {
+				break
+			}
+			line := fset.Position(x.Pos()).Line
+			xt := text(x.X)
+			_, isCall := x.X.(*ast.CallExpr)
+			if isCall || strings.Contains(xt, "\n") || fset.Position(x.Body.Lbrace).Line != line || (x.Tok != token.DEFINE && x.Key != nil) {
+				res.warnings = append(res.warnings, fmt.Sprintf("%s:%d: map iteration left in Go's random order (operand is a call / multi-line header / assignment form)", rel, line))
+				break
+			}
+			rangeCounter++
+			keyName := fmt.Sprintf("vsimK%d", rangeCounter)
+			if id, ok := x.Key.(*ast.Ident); ok && id.Name != "_" {
+				keyName = id.Name
+			}
+			hdr := fmt.Sprintf("_, %s := range simrt.SortedKeys(%s) {", keyName, xt)
+			if id, ok := x.Value.(*ast.Ident); ok && id.Name != "_" {
+				hdr += fmt.Sprintf(" %s, vsimOk%d := (%s)[%s]; if !vsimOk%d { continue };", id.Name, rangeCounter, xt, keyName, rangeCounter)
+			} else {
+				hdr += fmt.Sprintf(" if _, vsimOk%d := (%s)[%s]; !vsimOk%d { continue };", rangeCounter, xt, keyName, rangeCounter)
+			}
+			if x.Key == nil {
+				hdr += " _ = " + keyName + ";"
+			}
+			// replace everything between "for " and the opening brace (inclusive)
+			res.edits = append(res.edits, edit{start: off(x.Pos()) + len("for "), end: off(x.Body.Lbrace) + 1, text: hdr})
+			res.counts["maprange"]++
+			return true
 		case *ast.GoStmt:
 			goCounter++
 			pos := fset.Position(x.Pos())
